@@ -519,5 +519,96 @@ Proof.
 Qed.
 Lemma func_get1_out tol x A a b z : out_box K tol x a b = true -> func_get1 K tol x A a b z true = z.
 Proof. intros H. unfold func_get1, func_get1_rows. rewrite H. reflexivity. Qed.
+
+(* ---------------------------------------------------------------- func_sum *)
+Lemma bsum_even n (f : nat -> T) :
+  bsum K ((n + 1) / 2) (fun t => f (2 * t)%nat) = bsum K n (fun i => if Nat.even i then f i else 0).
+Proof.
+  induction n as [|n IH]; [reflexivity|]. cbn [bsum]. rewrite <- IH. clear IH.
+  destruct (Nat.even n) eqn:E.
+  - apply Nat.even_spec in E. destruct E as [q ->].
+    replace ((S (2 * q) + 1) / 2)%nat with (S q).
+    2:{ replace (S (2 * q) + 1)%nat with ((1 + q) * 2)%nat by lia. now rewrite Nat.div_mul by lia. }
+    replace ((2 * q + 1) / 2)%nat with q.
+    2:{ apply (Nat.div_unique (2 * q + 1) 2 q 1); lia. }
+    cbn [bsum]. reflexivity.
+  - assert (O' : Nat.odd n = true) by (rewrite <- Nat.negb_even, E; reflexivity).
+    apply Nat.odd_spec in O'. destruct O' as [q ->].
+    replace ((S (2 * q + 1) + 1) / 2)%nat with (S q).
+    2:{ apply (Nat.div_unique (S (2 * q + 1) + 1) 2 (S q) 1); lia. }
+    replace ((2 * q + 1 + 1) / 2)%nat with (S q).
+    2:{ replace (2 * q + 1 + 1)%nat with ((1 + q) * 2)%nat by lia. now rewrite Nat.div_mul by lia. }
+    ring.
+Qed.
+(* the weight of the k-th coefficient in the integral: p[k/2] for even k, nothing for odd k *)
+Definition wsum (kind : fkind) (i : nat) : T := if Nat.even i then sum_p K kind (i / 2) else 0.
+Definition sumrow (kind : fkind) (ak bk : T) : nat -> nat -> T := fun _ i => wsum kind i * ((bk - ak) / ftwo).
+Lemma sum_step_cmode kind v G ak bk :
+  sum_step K kind v G ak bk = vstep K v (cmode 1 (sumrow kind ak bk) G) O.
+Proof.
+  unfold sum_step, vstep. unfold cmode at 1. rewrite cr2_mk. apply tab_ext; intros q Hq.
+  unfold cmode at 1. rewrite cr1_mk. rewrite <- bsum_mul_r by auto. apply bsum_ext; intros r Hr.
+  unfold cmode. rewrite cget_mk by auto.
+  rewrite (bsum_ext K ((cn G + 1) / 2) _ (fun t => (fun i => sum_p K kind (i / 2) * cget K G r i q) (2 * t)%nat)).
+  2:{ intros t Ht. cbv beta. rewrite (Nat.mul_comm 2 t), Nat.div_mul by lia. reflexivity. }
+  rewrite (bsum_even (cn G) (fun i => sum_p K kind (i / 2) * cget K G r i q)).
+  transitivity (nth r v 0 * (bsum K (cn G) (fun i => if Nat.even i then sum_p K kind (i / 2) * cget K G r i q else 0)
+                             * ((bk - ak) / ftwo))); [ring|]. f_equal.
+  rewrite <- bsum_mul_r by auto. apply bsum_ext; intros i Hi. unfold sumrow, wsum.
+  destruct (Nat.even i); ring.
+Qed.
+Fixpoint sumMs (kind : fkind) (a b : list T) : list (nat * (nat -> nat -> T)) :=
+  match a, b with
+  | ak :: a', bk :: b' => (1%nat, sumrow kind ak bk) :: sumMs kind a' b'
+  | _, _ => []
+  end.
+Lemma sum_run_tmode kind : forall A a b v, length a = length A -> length b = length A ->
+  sum_run K kind v A a b = run K v (tmode (sumMs kind a b) A) (map (fun _ => O) a).
+Proof.
+  induction A as [|G A IH]; intros [|ak a] [|bk b] v La Lb; cbn [length] in *; try discriminate;
+    cbn [sum_run sumMs map tmode run fst snd]; auto.
+  rewrite sum_step_cmode. apply IH; lia.
+Qed.
+Fixpoint wprod (kind : fkind) (a b : list T) (idx : list nat) : T :=
+  match a, b, idx with
+  | ak :: a', bk :: b', i :: idx' => wsum kind i * ((bk - ak) / ftwo) * wprod kind a' b' idx'
+  | _, _, _ => 1
+  end.
+Fixpoint vol (a b : list T) : T :=
+  match a, b with ak :: a', bk :: b' => (bk - ak) / ftwo * vol a' b' | _, _ => 1 end.
+Fixpoint wsprod (kind : fkind) (idx : list nat) : T :=
+  match idx with i :: idx' => wsum kind i * wsprod kind idx' | [] => 1 end.
+Lemma mprod_sum kind : forall a b idx, length b = length a ->
+  mprod (map snd (sumMs kind a b)) (map (fun _ => O) a) idx = wprod kind a b idx.
+Proof.
+  induction a as [|ak a IH]; intros [|bk b] idx L; cbn [length] in L; try discriminate; [reflexivity|].
+  destruct idx as [|i idx]; [reflexivity|]. cbn [sumMs map snd mprod wprod]. rewrite IH by lia. reflexivity.
+Qed.
+Lemma wprod_vol kind : forall a b idx, length b = length a -> length idx = length a ->
+  wprod kind a b idx = vol a b * wsprod kind idx.
+Proof.
+  induction a as [|ak a IH]; intros [|bk b] [|i idx] L L'; cbn [length] in *; try discriminate;
+    cbn [wprod vol wsprod]; [ring|]. rewrite IH by lia. ring.
+Qed.
+Lemma sumMs_props kind : forall a b, length b = length a ->
+  length (sumMs kind a b) = length a /\ inb (map fst (sumMs kind a b)) (map (fun _ => O) a).
+Proof.
+  unfold inb. induction a as [|ak a IH]; intros [|bk b] L; cbn [length] in L; try discriminate; cbn [sumMs map fst length].
+  - split; auto.
+  - destruct (IH b ltac:(lia)) as [A B]. split; [lia|]. constructor; auto.
+Qed.
+(* func_sum = prod (b_k - a_k)/2 * sum over all coefficients of the weight product *)
+Lemma func_sum_msum kind A a b : chain 1 A 1 -> length a = length A -> length b = length A ->
+  func_sum K A a b kind = vol a b * msum K (shape A) (fun m => wsprod kind m * get K A m).
+Proof.
+  intros HC La Lb. unfold func_sum. rewrite sum_run_tmode by auto.
+  change (nth O (run K [1] (tmode (sumMs kind a b) A) (map (fun _ => O) a)) 0)
+    with (get K (tmode (sumMs kind a b) A) (map (fun _ => O) a)).
+  destruct (sumMs_props kind a b ltac:(lia)) as [L1 L2].
+  rewrite modewise_linear; auto; [|lia].
+  rewrite <- msum_mul_l by auto. apply msum_ext; intros idx Hi.
+  rewrite mprod_sum by lia. rewrite wprod_vol; [ring|lia|].
+  apply inb_length in Hi. unfold shape in Hi. rewrite map_length in Hi. lia.
+Qed.
 End Spec.
 End FuncP.
